@@ -45,7 +45,7 @@ FLOORS = {
 }
 TIMEOUT_S = {"quick": 1500, "thorough": 5400}
 N_CASES = {"quick": 64, "thorough": 640}
-FAMILY_CYCLE = ["mixed", "probe", "discrete", "builtin", "probe", "mixed"]
+FAMILY_CYCLE = ["mixed", "probe", "discrete", "builtin", "bare", "bare-discrete"]
 
 
 def plan(tier, seed):
@@ -166,7 +166,7 @@ def run_case(case, ctx):
                     ctx.sample({"program": spec.show(prog), "selection": S.show(expr), "selected": d0["selected"],
                                 "args_change": akind, "weight": gfi.fnum(res[1]), "site_events_seen": len(events)})
         # exact conditional law of the resampled part
-        if case["family"] == "discrete" and spec.all_discrete(prog) and sset:
+        if case["family"] in ("discrete", "bare-discrete") and spec.all_discrete(prog) and sset:
             r = ctx.call(_check_law, ctx, regen, prog, tr0, sel, sset, vals0, args0, base, S.show(expr))
             if hasattr(r, "brief"):
                 ctx.violation(gfi.raise_key("regenerate-law", r), {**base, "selection": S.show(expr), **r.brief()})
